@@ -1,6 +1,7 @@
 mod atree;
 mod common;
 mod gen;
+mod nsscope;
 mod props;
 
 use common::*;
@@ -43,13 +44,24 @@ fn main() {
     install_panic_hook();
     let threads = std::env::var("VERIF_THREADS").ok().and_then(|s| s.parse().ok()).unwrap_or(16);
     rayon::ThreadPoolBuilder::new().num_threads(threads).stack_size(64 << 20).build_global().unwrap();
-    let code = match (prop.as_str(), replay) {
-        ("C07", None) => props::c07::run(tier),
-        ("C07", Some(p)) => replay_case::<props::c07::Case>(&p, "C07", props::c07::eval),
-        _ => {
-            eprintln!("unknown property {}", prop);
-            2
-        }
-    };
+    macro_rules! dispatch {
+        ($($id:literal => $m:ident),* $(,)?) => {
+            match (prop.as_str(), replay) {
+                $(
+                    ($id, None) => props::$m::run(tier),
+                    ($id, Some(p)) => replay_case::<props::$m::Case>(&p, $id, props::$m::eval),
+                )*
+                _ => {
+                    eprintln!("unknown property {}", prop);
+                    2
+                }
+            }
+        };
+    }
+    let code = dispatch!(
+        "C01" => c01,
+        "C07" => c07,
+        "C09" => c09,
+    );
     std::process::exit(code);
 }
